@@ -119,6 +119,9 @@ pub fn par_units<U: Sync, R: Send, F: Fn(&U) -> R + Sync>(units: &[U], f: F) -> 
     std::thread::scope(|s| {
         for _ in 0..jobs.min(units.len().max(1)) {
             s.spawn(|| loop {
+                // every worker starts with the default frozen clock (H2); checks that need another
+                // instant, or the real clock, set it themselves
+                crate::adapter::freeze_default_clock();
                 let i = next.fetch_add(1, Ordering::SeqCst);
                 if i >= units.len() {
                     break;
